@@ -510,13 +510,8 @@ Section Derive.
   (** the least set closed under the rules (least fixed point of [step]) *)
   Definition derivable (it : item) : Prop := forall P, closed P -> P it.
 
-  Definition has_rules (c : comp) : Prop :=
-    (exists i, In i (c_ins c) /\ is_rules (sp_in sp i) <> None)
-    \/ (exists o, In o (c_outs c) /\ os_rules (sp_out sp o) <> None).
-
   Definition wf_setup : Prop :=
-    disjoint_slots cs /\ NoDup (sp_ins sp) /\ (forall i, In i (sp_ins sp) <-> own_in i)
-    /\ (forall c, In c cs -> has_rules c -> c_cache c = true).
+    disjoint_slots cs /\ NoDup (sp_ins sp) /\ (forall i, In i (sp_ins sp) <-> own_in i).
 End Derive.
 
 (** * Scripted sequences of direct ConnectHelper.connect calls (tests/tools/test_connect.py style) *)
